@@ -110,6 +110,7 @@ func single(rounds int, f func(i int)) (wait func()) {
 }
 
 const (
+	dataMarker      = "C17-DATA"
 	hangMarker      = "C17-HANG"
 	scenarioTimeout = 25 * time.Second
 )
@@ -134,6 +135,61 @@ func TestC17Scenario(t *testing.T) {
 type observed struct {
 	race, hang, crash, broken bool
 	report                    string
+	data                      *scenarioData
+}
+
+// scenarioData is the optional structured output of a scenario (a line "C17-DATA {json}"): for the
+// account-churn scenarios the key sets listed in each phase and the distinct answers of the lookups.
+type scenarioData struct {
+	Listings   [][]uint64    `json:"listings"`
+	Active     []uint64      `json:"active"`
+	Requested  []uint64      `json:"requested"`
+	Answers    [][][2]uint64 `json:"answers"`
+	AnswersIdx [][][2]uint64 `json:"answers_idx"`
+}
+
+func parseData(text string) *scenarioData {
+	i := strings.Index(text, dataMarker+" ")
+	if i < 0 {
+		return nil
+	}
+	line := text[i+len(dataMarker)+1:]
+	if j := strings.IndexByte(line, '\n'); j >= 0 {
+		line = line[:j]
+	}
+	var d scenarioData
+	if err := json.Unmarshal([]byte(line), &d); err != nil {
+		return nil
+	}
+	return &d
+}
+
+func nList(xs []uint64) string {
+	items := make([]string, 0, len(xs))
+	for _, x := range xs {
+		items = append(items, N(x))
+	}
+	return List(items)
+}
+
+func nLists(xss [][]uint64) string {
+	items := make([]string, 0, len(xss))
+	for _, xs := range xss {
+		items = append(items, nList(xs))
+	}
+	return List(items)
+}
+
+func answerLists(as [][][2]uint64) string {
+	items := make([]string, 0, len(as))
+	for _, a := range as {
+		ps := make([]string, 0, len(a))
+		for _, p := range a {
+			ps = append(ps, Pair(N(p[0]), Bool(p[1] != 0)))
+		}
+		items = append(items, List(ps))
+	}
+	return List(items)
 }
 
 // vouchPanic reports whether the output shows a panic whose first frame outside the runtime is Vouch code.
@@ -174,6 +230,7 @@ func runScenario(name string) observed {
 	var o observed
 	o.race = strings.Contains(text, "WARNING: DATA RACE") || strings.Contains(text, "fatal error: concurrent map")
 	o.hang = strings.Contains(text, hangMarker) || strings.Contains(text, "all goroutines are asleep") || ctx.Err() != nil
+	o.data = parseData(text)
 	var panicText string
 	o.crash, panicText = vouchPanic(text)
 	o.broken = err != nil && !o.race && !o.hang && !o.crash
@@ -271,12 +328,20 @@ func TestC17(t *testing.T) {
 		if o.crash {
 			col.Count("crash:" + n)
 		}
+		d := o.data
+		if d == nil {
+			d = &scenarioData{}
+		} else {
+			col.Count("answers:" + n)
+		}
 		id := col.NextID()
 		col.Add(Case{
 			Term: Record("c_id", N(id), "c_service", fmt.Sprintf("%q", scenarios[n].service), "c_scenario", fmt.Sprintf("%q", n),
-				"c_race", Bool(o.race), "c_hang", Bool(o.hang), "c_crash", Bool(o.crash)),
+				"c_race", Bool(o.race), "c_hang", Bool(o.hang), "c_crash", Bool(o.crash),
+				"c_listings", nLists(d.Listings), "c_active", nList(d.Active), "c_requested", nList(d.Requested),
+				"c_answers", answerLists(d.Answers), "c_answers_idx", answerLists(d.AnswersIdx)),
 			Key: fmt.Sprintf("%s#%d", n, reps[n]), Nontrivial: true, Tags: []string{"scenario:" + n, "service:" + scenarios[n].service},
-			Sample: map[string]any{"input": in, "observed": map[string]any{"race": o.race, "hang": o.hang, "crash": o.crash, "report": o.report}},
+			Sample: map[string]any{"input": in, "observed": map[string]any{"race": o.race, "hang": o.hang, "crash": o.crash, "report": o.report, "data": o.data}},
 		})
 		reps[n]++
 	}
